@@ -374,10 +374,29 @@ class Subject:
             if isinstance(e, (SystemExit, MemoryError)):
                 raise
             return {'script': ['EXC', type(e).__name__], 'probes': []}
+        # a crowd: further Scripts showing the same text under other paths (many editor tabs) stay alive
+        # while the main one is asked, and are all discarded - and finalised in ONE collector run -
+        # at the end of the op
+        crowd, crowd_res = [], []
+        for j in range(int(op.get('crowd') or 0)):
+            try:
+                s2 = self.make_script(dict(op, path='crowd_%d.py' % j))
+            except BaseException as e:
+                if isinstance(e, (SystemExit, MemoryError)):
+                    raise
+                crowd_res.append([['EXC', type(e).__name__]])
+                continue
+            crowd.append(s2)
+            crowd_res.append([self.cm.run_probe(s2, p, self.canon) for p in op['probes'][:2]])
         out = []
         for p in op['probes']:
             out.append(self.cm.run_probe(s, p, self.canon))
         r = {'script': 'ok', 'probes': out}
+        if op.get('crowd'):
+            r['crowd'] = crowd_res
+            del crowd
+            del s2
+            gc.collect()
         if op.get('tree'):
             r['tree'] = tree_digest(s._module_node)
             r['tree_fresh'] = fresh_tree_digest(op.get('code'), s)
@@ -719,7 +738,13 @@ class Subject:
             cur = self.host_state()
             for k in ('path', 'cwd', 'environ'):
                 if cur[k] != self.host_base[k]:
-                    bad.append(['host_' + k])
+                    if k == 'path':
+                        rr = os.path.realpath(self.root)
+                        norm = lambda x: str(x).replace(rr, '<root>').replace(self.root, '<root>')   # noqa: E731
+                        bad.append(['host_path', {'added': [norm(x) for x in cur[k] if x not in self.host_base[k]][:5],
+                                                  'removed': [norm(x) for x in self.host_base[k] if x not in cur[k]][:5]}])
+                    else:
+                        bad.append(['host_' + k])
             wr = os.path.realpath(self.world)
             leaked = []
             for name, m in list(sys.modules.items()):
@@ -739,7 +764,17 @@ class Subject:
                     hp, hm, hcwd = val
                     base = self.helper_base.setdefault(g.index, (hp, hcwd))
                     if hp != base[0]:
-                        bad.append(['helper_path', [x for x in hp if x not in base[0]][:3]])
+                        # the statement is about project code: an entry the helper's own environment added
+                        # (e.g. setuptools' vendor directory once its distutils shim has run) is not the
+                        # analysed project's doing; entries inside the scratch root, lost entries or a
+                        # changed order of the original ones are
+                        rr = os.path.realpath(self.root)
+                        added = [x for x in hp if x not in base[0]]
+                        kept = [x for x in hp if x in base[0]]
+                        if kept != list(base[0]) or any(
+                                x == '' or os.path.realpath(str(x)).startswith(rr) or not os.path.isabs(str(x))
+                                for x in added):
+                            bad.append(['helper_path', [str(x).replace(rr, '<root>') for x in added][:3]])
                     if hcwd != base[1]:
                         bad.append(['helper_cwd'])
                     if hm:
